@@ -74,41 +74,79 @@ func (vc *VC) collectHints() {
 	if vc.dry {
 		return
 	}
-	terms := append(append([]T{}, vc.goalSk...), vc.goalIdx...)
+	bySort := map[string][]T{}
 	seen := map[T]bool{}
-	var uniq []T
-	for _, t := range terms {
-		if !seen[t] && !strings.Contains(t, "q_") {
-			seen[t] = true
-			uniq = append(uniq, t)
+	add := func(t T, srt string) {
+		if seen[t] || strings.Contains(t, "q_") || len(bySort[srt]) >= 8 {
+			return
 		}
+		seen[t] = true
+		bySort[srt] = append(bySort[srt], t)
 	}
-	if len(uniq) > 10 {
-		uniq = uniq[:10]
+	for _, t := range vc.goalSk {
+		add(t, "Int")
+	}
+	for _, ts := range vc.goalIdx {
+		add(ts[0], ts[1])
 	}
 	hs := vc.qhyps
-	if len(hs) > 30 {
-		hs = hs[len(hs)-30:]
+	if len(hs) > 60 {
+		// keep the entry assumptions (first) and the most recent ones
+		hs = append(append([]qhyp{}, hs[:20]...), hs[len(hs)-40:]...)
 	}
 	seenI := map[T]bool{}
 	for _, q := range hs {
-		for _, t := range uniq {
-			v := q.e.Vars[0]
-			n := q.env.bind(v[0], SV{t: t, srt: "Int"})
-			n.role, n.pol = 0, 0
-			body := vc.evalSpec(q.e.Args[0], n).t
-			switch specSort(v[1]) {
-			case "byte":
-				body = implies(inRange(t, "0", "255"), body)
-			case "nat":
-				body = implies(le("0", t), body)
+		// candidate tuples
+		tuples := [][]T{{}}
+		ok := true
+		for _, v := range q.e.Vars {
+			srt := specSort(v[1])
+			if srt == "byte" || srt == "nat" {
+				srt = "Int"
 			}
+			cands := bySort[srt]
+			if len(cands) == 0 {
+				ok = false
+				break
+			}
+			var next [][]T
+			for _, tu := range tuples {
+				for _, c := range cands {
+					if len(next) >= 24 {
+						break
+					}
+					next = append(next, append(append([]T{}, tu...), c))
+				}
+			}
+			tuples = next
+		}
+		if !ok {
+			continue
+		}
+		for _, tu := range tuples {
+			n := q.env
+			var ranges []T
+			for i, v := range q.e.Vars {
+				srt := specSort(v[1])
+				sv := SV{t: tu[i], srt: srt}
+				switch srt {
+				case "byte":
+					sv.srt = "Int"
+					ranges = append(ranges, inRange(tu[i], "0", "255"))
+				case "nat":
+					sv.srt = "Int"
+					ranges = append(ranges, le("0", tu[i]))
+				}
+				n = n.bind(v[0], sv)
+			}
+			n.role, n.pol = 0, 0
+			body := implies(and(ranges...), vc.evalSpec(q.e.Args[0], n).t)
 			inst := implies(and(q.path...), body)
 			if inst != tTrue && !seenI[inst] {
 				seenI[inst] = true
 				vc.pendingHints = append(vc.pendingHints, inst)
 			}
-			if len(vc.pendingHints) >= 160 {
+			if len(vc.pendingHints) >= 300 {
 				return
 			}
 		}
@@ -211,7 +249,7 @@ func (vc *VC) evalSpec(e *Expr, env *SpecEnv) SV {
 			body := vc.evalSpec(e.Args[0], n).t
 			return mathBool(implies(and(ranges...), body))
 		}
-		if env.role == 2 && env.pol > 0 && e.Name == "forall" && allInt && len(e.Vars) == 1 && !vc.dry {
+		if env.role == 2 && env.pol > 0 && e.Name == "forall" && len(e.Vars) <= 2 && !vc.dry {
 			cp := *env
 			cp.role, cp.pol = 0, 0
 			vc.qhyps = append(vc.qhyps, qhyp{e: e, env: &cp, path: append([]T{}, env.path...)})
@@ -258,9 +296,9 @@ func (vc *VC) evalSpec(e *Expr, env *SpecEnv) SV {
 	case "index":
 		x := vc.evalSpec(e.Args[0], env.nopol())
 		i := vc.evalSpec(e.Args[1], env.nopol())
-		if env.role == 1 && i.sortIn(vc) == "Int" {
+		if env.role == 1 {
 			if _, isNum := isNumeral(i.t); !isNum && len(i.t) < 200 {
-				vc.goalIdx = append(vc.goalIdx, i.t)
+				vc.goalIdx = append(vc.goalIdx, [2]T{i.t, i.sortIn(vc)})
 			}
 		}
 		return vc.indexSpec(x, i, env)
@@ -372,6 +410,14 @@ func (vc *VC) evalSelect(e *Expr, env *SpecEnv) SV {
 							if c, ok := obj.(*types.Const); ok {
 								return vc.constSV(c.Val(), c.Type())
 							}
+							if _, ok := obj.(*types.Var); ok {
+								if sp := vc.eng.prog.Package(imp); sp != nil {
+									if g := sp.Var(e.Name); g != nil {
+										ptr := vc.globalRef(g)
+										return SV{t: vc.loadLoc(env.cur, vc.locOf(ptr)), typ: derefType(g.Type())}
+									}
+								}
+							}
 						}
 					}
 				}
@@ -416,8 +462,8 @@ func (vc *VC) fieldSpec(x SV, name string, env *SpecEnv) SV {
 		return mathInt("0")
 	}
 	if _, abstract := valueModeSorts[typeKey(x.typ)]; abstract && vc.mode == ValueMode {
-		vc.errorf("spec: %s is abstract in value mode (selecting %s)", x.typ, name)
-		return mathInt("0")
+		// the representation field of a value-mode abstract type (x.i of an Int): never nil, always fresh
+		return SV{t: "absfield", srt: "absfield"}
 	}
 	s := vc.sortOf(x.typ)
 	for i := 0; i < st.NumFields(); i++ {
@@ -497,6 +543,8 @@ func (vc *VC) isStrSV(x SV) bool {
 func (vc *VC) nilOf(x SV) T {
 	s := x.sortIn(vc)
 	switch s {
+	case "absfield":
+		return tFalse
 	case "Int":
 		return eq(x.t, "0")
 	case "Slice":
@@ -652,6 +700,9 @@ func (vc *VC) evalCall(e *Expr, env *SpecEnv) SV {
 		return r
 	case "fresh":
 		x := ev(0)
+		if x.srt == "absfield" || (x.typ != nil && vc.sortOf(x.typ) != "Int" && vc.sortOf(x.typ) != "Slice") {
+			return mathBool(tTrue)
+		}
 		t := x.t
 		if x.sortIn(vc) == "Slice" {
 			t = app("s_ref", x.t)
@@ -659,6 +710,25 @@ func (vc *VC) evalCall(e *Expr, env *SpecEnv) SV {
 		return mathBool(app(">=", t, env.old.alloc))
 	case "isnil":
 		return mathBool(vc.nilOf(ev(0)))
+	case "upd":
+		a, i, v := ev(0), ev(1), ev(2)
+		r := a
+		r.t = sto(a.t, i.t, v.t)
+		return r
+	case "amt":
+		c, d := ev(0), ev(1)
+		if c.sortIn(vc) != "Coins" {
+			vc.errorf("spec: amt() needs value-mode Coins, got %s", c.sortIn(vc))
+			return mathInt("0")
+		}
+		return mathInt(app("coins_amt", c.t, d.t))
+	case "valid":
+		c := ev(0)
+		if c.sortIn(vc) != "Coins" {
+			vc.errorf("spec: valid() needs value-mode Coins, got %s", c.sortIn(vc))
+			return mathBool(tTrue)
+		}
+		return mathBool(app("coins_valid", c.t))
 	case "ref":
 		x := ev(0)
 		if x.sortIn(vc) == "Slice" {
